@@ -2,5 +2,6 @@ SPECIFICATION Spec
 CONSTANT Dev = "mul_any_operands"
 INVARIANT FusionSound
 INVARIANT LpNormSound
+INVARIANT MeanSound
 INVARIANT DigitizeLaws
 CHECK_DEADLOCK FALSE
